@@ -350,6 +350,19 @@ func runC03(c *core.Ctx) {
 					run(set.version, k.name, fmt.Sprintf("unknown:%s#%d", name, vi), k.place(unk), true)
 				}
 			}
+			// a member whose name differs from one of the kind's own fields in letter case only is another member (JSON names
+			// are case-sensitive): it comes back as it was written and the field it resembles does not appear
+			for _, f := range sortedKeys(k.optional) {
+				if k.name == "paths" || k.name == "responses" || k.name == "callback" {
+					break
+				}
+				if _, isText := k.optional[f].(string); !isText || f == "" || strings.ToUpper(f[:1]) == f[:1] {
+					continue
+				}
+				cv := gen.Clone(k.required)
+				cv[strings.ToUpper(f[:1])+f[1:]] = k.optional[f]
+				run(set.version, k.name, "case-variant:"+strings.ToUpper(f[:1])+f[1:], k.place(cv), true)
+			}
 			// all optional fields at once
 			all := gen.Clone(k.required)
 			for f, v := range k.optional {
@@ -496,7 +509,12 @@ func c03One(c *core.Ctx, codec c03codec, kind, field string, input []byte, norma
 	json.Unmarshal(input, &inTree)
 	json.Unmarshal(j1, &j1Tree)
 	feat := func(k, ptr, cls string) map[string]string {
-		return map[string]string{"kind": k, "version": codec.version, "object": kind, "field": c03FieldOf(ptr, field), "class": cls}
+		f := map[string]string{"kind": k, "version": codec.version, "object": kind, "field": c03FieldOf(ptr, field), "class": cls}
+		if strings.HasPrefix(field, "case-variant:") {
+			// one open finding covers the mechanism (every object kind decodes through encoding/json's case-insensitive matching)
+			f = map[string]string{"kind": k, "class": cls, "member_differs_in_case_from_a_field": "true"}
+		}
+		return f
 	}
 	if normal {
 		if ptr, cls := firstDiff(inTree, j1Tree, ""); ptr != "" {
